@@ -4,10 +4,20 @@
   stream position part of every outcome) and Spec.Msg.* (the protocol documentation's layout).
   Helper lemmas live in Proofs/Messages.lean.
 
-  `ChecksumLen` ("SHA-256d digests are 32 bytes, so the checksum field has 4") is an explicit
-  hypothesis wherever a frame is split at the checksum: `Crypto.hash256` is an opaque executable
-  reference for the kernel.  No theorem needs collision resistance: `bad_checksum_rejected` is
-  stated for a checksum field that differs from the checksum of the payload actually carried.
+  Spec and Model are written independently: the Spec's command table, its 12-byte command field
+  ("name then NULs up to 12"), its checksum (first four bytes of SHA-256d) and its protocol-version
+  constants are its own; the Model has its own transcription of the `command` class attributes, pads
+  with `b"\x00" * (12 - len(command))`, chains two SHA-256 calls and carries net.py's constants.
+  `frame_eq_spec` is where they meet.  `ChecksumLen` (SHA-256d digests are 32 bytes) is proved
+  (`checksum_len`, from Proofs/CryptoLen.lean); no theorem carries it as a hypothesis any more.
+  No theorem needs collision resistance: `bad_checksum_rejected` is stated for a checksum field that
+  differs from the checksum of the payload actually carried.
+
+  Domain.  `WFMsg` is "field values the protocol version carries" for EVERY protocol version of
+  `version` (fields from 106 / 209 / 70001 as the protocol documentation and BIP37 prescribe; 10300
+  excluded, the reference client and the library read it as 300).  All theorems, framing and parsing,
+  hold on all of it.  (For the shipped code the framing theorems were false below 70001: `msg_ser`
+  wrote every field whatever nVersion — finding D20; the model is written for the repaired code.)
 -/
 import BtcVerif.Proofs.Messages
 
@@ -24,13 +34,23 @@ theorem chain_magic_length : ∀ p ∈ BtcVerif.Spec.chainTable, (p.messageStart
 theorem payload_eq_spec (m : Msg) (hwf : WFMsg m) : msgSer m = .ok (payload m) := msgSer_ok m hwf
 
 /-- `to_bytes` = magic ‖ NUL-padded command ‖ u32 length ‖ checksum ‖ prescribed payload -/
-theorem frame_eq_spec (magic : Bytes) (m : Msg) (hwf : WFMsg m) (hlen : (payload m).length < 2 ^ 32) :
+theorem frame_eq_spec (magic : Bytes) (m : Msg) (hwf : WFMsg m)
+    (hlen : (payload m).length < 2 ^ 32) :
     toBytes magic m = .ok (frameMsg magic m) := by
+  obtain ⟨hc, _⟩ := command_props m
   unfold toBytes
   rw [msgSer_ok m hwf]
-  simp only [Res.ok_bind, Model.Msg.frame, frameMsg, Spec.Msg.frame, commandField, checksum_eq]
+  simp only [Res.ok_bind, Model.Msg.frame, frameMsg, Spec.Msg.frame, checksum_eq, command_eq,
+    commandField_eq _ hc]
   rw [packU_ok 4 _ (by norm_num; exact hlen)]
   simp
+
+/-- the checksum field is four bytes long: SHA-256d digests have 32 -/
+theorem checksum_len : ChecksumLen := checksumLen
+
+/-- the model's command constants (its transcription of the `command` class attributes) are the
+    protocol's command names -/
+theorem command_eq_spec (m : Msg) : Model.Msg.command m = Spec.Msg.command m := command_eq m
 
 /-! ### parsing inverts framing -/
 
@@ -38,11 +58,11 @@ theorem frame_eq_spec (magic : Bytes) (m : Msg) (hwf : WFMsg m) (hlen : (payload
     field values (`norm`: an all-empty transaction witness comes back as no witness), whatever
     bytes follow -/
 theorem payload_roundtrip (m : Msg) (hwf : WFMsg m) :
-    ∃ p, msgDeser (command m) = some p ∧ ∀ rest, p (payload m ++ rest) = .ok (norm m, rest) :=
+    ∃ p, msgDeser (Spec.Msg.command m) = some p ∧ ∀ rest, p (payload m ++ rest) = .ok (norm m, rest) :=
   payload_parse m hwf
 
 /-- parsing a frame followed by anything returns the message and leaves exactly what followed -/
-theorem parse_frame (hck : ChecksumLen) (magic : Bytes) (hm : magic.length = 4) (m : Msg)
+theorem parse_frame (magic : Bytes) (hm : magic.length = 4) (m : Msg)
     (hwf : WFMsg m) (hlen : (payload m).length ≤ Spec.Wire.maxSize) (rest : Bytes) :
     streamDeserialize magic (frameMsg magic m ++ rest) = (.ok (some (norm m)), rest) := by
   obtain ⟨hc, hz⟩ := command_props m
@@ -50,7 +70,7 @@ theorem parse_frame (hck : ChecksumLen) (magic : Bytes) (hm : magic.length = 4) 
   have h := hrt []
   rw [List.append_nil] at h
   unfold frameMsg
-  rw [streamDeserialize_frame hck magic (command m) (payload m) rest hm hc hz hlen]
+  rw [streamDeserialize_frame checksumLen magic (Spec.Msg.command m) (payload m) rest hm hc hz hlen]
   simp [dispatch, hp, h]
 
 /-- re-framing what parsing yields is byte-identical to framing the original -/
@@ -59,26 +79,26 @@ theorem reframe_identical (magic : Bytes) (m : Msg) : toBytes magic (norm m) = t
   rw [msgSer_norm, command_norm]
 
 /-- frame → parse → frame reproduces the frame -/
-theorem parse_reframe (hck : ChecksumLen) (magic : Bytes) (hm : magic.length = 4) (m : Msg)
+theorem parse_reframe (magic : Bytes) (hm : magic.length = 4) (m : Msg)
     (hwf : WFMsg m) (hlen : (payload m).length ≤ Spec.Wire.maxSize) (rest : Bytes) :
     ∃ m', streamDeserialize magic (frameMsg magic m ++ rest) = (.ok (some m'), rest) ∧
       toBytes magic m' = .ok (frameMsg magic m) := by
-  refine ⟨norm m, parse_frame hck magic hm m hwf hlen rest, ?_⟩
+  refine ⟨norm m, parse_frame magic hm m hwf hlen rest, ?_⟩
   rw [reframe_identical]
   exact frame_eq_spec magic m hwf (by
     have : Spec.Wire.maxSize < 2 ^ 32 := by decide
     omega)
 
 /-- `from_bytes` ignores what follows the first frame -/
-theorem fromBytes_frame (hck : ChecksumLen) (magic : Bytes) (hm : magic.length = 4) (m : Msg)
+theorem fromBytes_frame (magic : Bytes) (hm : magic.length = 4) (m : Msg)
     (hwf : WFMsg m) (hlen : (payload m).length ≤ Spec.Wire.maxSize) (extra : Bytes) :
     fromBytes magic (frameMsg magic m ++ extra) = .ok (some (norm m)) := by
   unfold fromBytes
-  rw [parse_frame hck magic hm m hwf hlen extra]
+  rw [parse_frame magic hm m hwf hlen extra]
 
 /-- a stream of concatenated frames yields the messages in order, each call consuming exactly
     its frame, and the loop ends without an error -/
-theorem parse_stream (hck : ChecksumLen) (magic : Bytes) (hm : magic.length = 4) (ms : List Msg)
+theorem parse_stream (magic : Bytes) (hm : magic.length = 4) (ms : List Msg)
     (h : ∀ m ∈ ms, WFMsg m ∧ (payload m).length ≤ Spec.Wire.maxSize) :
     parseAll magic ((ms.map (frameMsg magic)).flatten) = (ms.map (fun m => some (norm m)), none) := by
   unfold parseAll
@@ -92,7 +112,7 @@ theorem parse_stream (hck : ChecksumLen) (magic : Bytes) (hm : magic.length = 4)
     obtain ⟨hwf, hlen⟩ := h m (by simp)
     have hfl : 24 ≤ (frameMsg magic m).length := by
       obtain ⟨hc, _⟩ := command_props m
-      have := hck (payload m)
+      have := checksumLen (payload m)
       simp [frameMsg, Spec.Msg.frame, hm, commandField_length _ hc, this]
       omega
     simp only [List.map_cons, List.flatten_cons, List.length_append] at hf ⊢
@@ -104,14 +124,14 @@ theorem parse_stream (hck : ChecksumLen) (magic : Bytes) (hm : magic.length = 4)
         | nil => rw [hq] at hfl; simp at hfl
         | cons => rfl
       simp only [parseAllAux, hne, Bool.false_eq_true, if_false]
-      rw [parse_frame hck magic hm m hwf hlen]
+      rw [parse_frame magic hm m hwf hlen]
       simp only
       rw [ih (fun x hx => h x (by simp [hx])) fuel (by omega)]
 
 /-- frames followed by anything: the messages of the frames in order, each call consuming exactly
     its frame, then whatever reading the remainder yields (e.g. the error of a faulty frame) — so a
     fault after `n` good frames is reported after exactly those `n` messages -/
-theorem parse_stream_append (hck : ChecksumLen) (magic : Bytes) (hm : magic.length = 4) (ms : List Msg)
+theorem parse_stream_append (magic : Bytes) (hm : magic.length = 4) (ms : List Msg)
     (h : ∀ m ∈ ms, WFMsg m ∧ (payload m).length ≤ Spec.Wire.maxSize) (tail : Bytes) :
     parseAll magic ((ms.map (frameMsg magic)).flatten ++ tail) =
       (ms.map (fun m => some (norm m)) ++ (parseAll magic tail).1, (parseAll magic tail).2) := by
@@ -121,7 +141,7 @@ theorem parse_stream_append (hck : ChecksumLen) (magic : Bytes) (hm : magic.leng
     obtain ⟨hwf, hlen⟩ := h m (by simp)
     have hfl : 24 ≤ (frameMsg magic m).length := by
       obtain ⟨hc, _⟩ := command_props m
-      have := hck (payload m)
+      have := checksumLen (payload m)
       simp [frameMsg, Spec.Msg.frame, hm, commandField_length _ hc, this]
       omega
     have ih' := ih (fun x hx => h x (by simp [hx]))
@@ -136,9 +156,47 @@ theorem parse_stream_append (hck : ChecksumLen) (magic : Bytes) (hm : magic.leng
       | cons => rfl
     rw [hf]
     simp only [parseAllAux, hne, Bool.false_eq_true, if_false]
-    rw [parse_frame hck magic hm m hwf hlen]
+    rw [parse_frame magic hm m hwf hlen]
     simp only
     rw [parseAllAux_fuel magic f S.length S (by omega) (Nat.le_refl _), ih']
+
+/-- the loop with positions: after the i-th message exactly the frames that follow it (and `tail`)
+    remain unread; `parse_stream_append` is its projection -/
+theorem parse_stream_trace (magic : Bytes) (hm : magic.length = 4) (ms : List Msg)
+    (h : ∀ m ∈ ms, WFMsg m ∧ (payload m).length ≤ Spec.Wire.maxSize) (tail : Bytes) :
+    parseTrace magic ((ms.map (frameMsg magic)).flatten ++ tail) =
+      (streamTrace magic ms tail ++ (parseTrace magic tail).1, (parseTrace magic tail).2) := by
+  induction ms with
+  | nil => simp [streamTrace]
+  | cons m ms ih =>
+    obtain ⟨hwf, hlen⟩ := h m (by simp)
+    have hfl : 24 ≤ (frameMsg magic m).length := by
+      obtain ⟨hc, _⟩ := command_props m
+      have := checksumLen (payload m)
+      simp [frameMsg, Spec.Msg.frame, hm, commandField_length _ hc, this]
+      omega
+    have ih' := ih (fun x hx => h x (by simp [hx]))
+    rw [streamTrace_norm]
+    simp only [List.map_cons, List.flatten_cons, List.append_assoc, List.cons_append]
+    generalize hS : (ms.map (frameMsg magic)).flatten ++ tail = S at ih' ⊢
+    unfold parseTrace at ih' ⊢
+    have hl : (frameMsg magic m ++ S).length = (frameMsg magic m).length + S.length := List.length_append
+    obtain ⟨f, hf⟩ : ∃ f, (frameMsg magic m ++ S).length = f + 1 := ⟨(frameMsg magic m ++ S).length - 1, by omega⟩
+    have hne : (frameMsg magic m ++ S).isEmpty = false := by
+      cases hq : frameMsg magic m with
+      | nil => rw [hq] at hfl; simp at hfl
+      | cons => rfl
+    rw [hf]
+    simp only [parseTraceAux, hne, Bool.false_eq_true, if_false]
+    rw [parse_frame magic hm m hwf hlen]
+    simp only
+    rw [parseTraceAux_fuel magic f S.length S (by omega) (Nat.le_refl _), ih']
+
+/-- `parseAll` (what the other stream theorems speak about) is the projection of `parseTrace` (what
+    the driver prints, with positions): same messages, same final error -/
+theorem parseAll_eq_trace (magic s : Bytes) :
+    parseAll magic s = ((parseTrace magic s).1.map Prod.fst, (parseTrace magic s).2.map Prod.fst) :=
+  parseAllAux_eq_trace magic s.length s
 
 /-! ### rejection: wrong magic, wrong checksum, truncation, impossible length -/
 
@@ -178,14 +236,14 @@ theorem bad_checksum_rejected (magic cmdField cks payload rest : Bytes) (hm : ma
 
 /-- a frame whose payload was altered in transit (same length, header untouched) is rejected unless
     the altered payload has the same 32-bit checksum — the one cryptographic assumption, explicit -/
-theorem corrupted_payload_rejected (hck : ChecksumLen) (magic cmd payload payload' rest : Bytes)
+theorem corrupted_payload_rejected (magic cmd payload payload' rest : Bytes)
     (hm : magic.length = 4) (hc : cmd.length ≤ 12) (hl : payload'.length = payload.length)
     (hp : payload.length ≤ Spec.Wire.maxSize)
     (hno : Model.Msg.checksum payload' ≠ Model.Msg.checksum payload) :
     streamDeserialize magic (magic ++ commandField cmd ++ leBytes 4 payload.length ++
       Model.Msg.checksum payload ++ (payload' ++ rest)) = (.error .valueerr, rest) := by
   have := bad_checksum_rejected magic (commandField cmd) (Model.Msg.checksum payload) payload' rest hm
-    (commandField_length cmd hc) (hck payload) (by omega) (fun h => hno h.symm)
+    (commandField_length cmd hc) (checksumLen payload) (by omega) (fun h => hno h.symm)
   rw [hl] at this
   exact this
 
@@ -199,12 +257,24 @@ theorem accepted_frame_valid (magic s : Bytes) (m : Option Msg) (r : Bytes)
     r = s.drop (24 + declaredLen s) :=
   streamDeserialize_ok_valid magic s m r h
 
+/-- the driver's classification of an error as frame-level or payload-level rests on this: when the
+    header tests fail the outcome is one of the three frame-level errors, and anything returned
+    passed them -/
+theorem rejected_before_dispatch (magic s : Bytes) (h : frameAccepted magic s = false) :
+    ∃ e r, streamDeserialize magic s = (.error e, r) ∧ (e = .trunc ∨ e = .valueerr ∨ e = .sererr) :=
+  not_accepted_error magic s h
+
+theorem returned_was_accepted (magic s : Bytes) (m : Option Msg) (r : Bytes)
+    (h : streamDeserialize magic s = (.ok m, r)) : frameAccepted magic s = true := by
+  obtain ⟨h1, h2, h3, h4, h5, _⟩ := streamDeserialize_ok_valid magic s m r h
+  exact (frameAccepted_iff magic s).mpr ⟨h1, h2, h3, h4, h5⟩
+
 /-- every strict prefix of a frame raises the truncation error (the stream is exhausted) -/
-theorem truncated_frame_trunc (hck : ChecksumLen) (magic cmd payload : Bytes) (hm : magic.length = 4)
+theorem truncated_frame_trunc (magic cmd payload : Bytes) (hm : magic.length = 4)
     (hc : cmd.length ≤ 12) (hp : payload.length ≤ Spec.Wire.maxSize) (p : Bytes)
     (hpre : p <+: Spec.Msg.frame magic cmd payload) (hne : p ≠ Spec.Msg.frame magic cmd payload) :
     streamDeserialize magic p = (.error .trunc, []) := by
-  have hk : (Spec.Msg.checksum payload).length = 4 := hck payload
+  have hk : (Spec.Msg.checksum payload).length = 4 := checksumLen payload
   have hcf := commandField_length cmd hc
   have hp32 : payload.length < 256 ^ 4 := by
     have : Spec.Wire.maxSize < 256 ^ 4 := by decide
@@ -291,6 +361,26 @@ example : WFMsg (.version
       nNonce := some 0xdeadbeefcafe, strSubVer := some (asc ['/', 'x', ':', '1', '/']),
       nStartingHeight := some 800000, fRelay := 1 }) := by
   decide
+
+/-- the library's own default protocol version: a `version` message of version 60002 carries every
+    field except the relay flag -/
+def exVersion60002 : VersionMsg :=
+  { nVersion := 60002, nServices := 1, nTime := 1700000000, addrTo := { exAddr with nTime := 0 },
+    addrFrom := some { exAddr with nTime := 0 }, nNonce := some 7, strSubVer := some [],
+    nStartingHeight := some (-1), fRelay := 1 }
+
+example : WFMsg (.version exVersion60002) := by decide
+/-- D20: at 60002 the prescribed payload has 85 bytes (no relay byte), and that is what `msg_ser` writes -/
+example : (payload (.version exVersion60002)).length = 85 := by decide
+example : (msgSer (.version exVersion60002)).toOption.map List.length = some 85 := by
+  rw [payload_eq_spec _ (by decide)]
+  decide
+/-- a version-105 message: four fields only, nothing else carried -/
+def exVersion105 : VersionMsg :=
+  { exVersion60002 with nVersion := 105, addrFrom := none, nNonce := none, strSubVer := none,
+                        nStartingHeight := none }
+
+example : WFMsg (.version exVersion105) := by decide
 
 example : WFMsg (.inv [{ type := 1, hash := List.replicate 32 0xab }, { type := 0x40000002, hash := List.replicate 32 1 }]) := by
   refine ⟨by decide, ?_⟩
